@@ -108,6 +108,9 @@ pub struct Record {
     pub info: u8,
     pub fmt_dp: bool,
     pub fmt_gq: bool,
+    /// extra REF bases beyond the first (long reference alleles: long lines, rlen > 1 in BCF)
+    #[serde(default)]
+    pub ref_pad: u16,
     /// false: the FORMAT column has no GT key at all (every sample is then missing)
     pub has_gt: bool,
     /// draw used by `force_record_classes` (0 = leave the record as generated)
@@ -132,6 +135,15 @@ impl Record {
             .collect()
     }
 
+    pub fn reference(&self) -> String {
+        let mut r = String::with_capacity(1 + self.ref_pad as usize);
+        r.push('A');
+        for i in 0..self.ref_pad as usize {
+            r.push(['C', 'G', 'T', 'A'][i % 4]);
+        }
+        r
+    }
+
     /// Effective genotype of a sample (all-missing when the record has no GT key).
     pub fn gt_of(&self, sample: usize) -> Gt {
         if self.has_gt {
@@ -146,7 +158,7 @@ impl Record {
         cols.push(cs.contigs[self.contig].clone());
         cols.push(self.pos.to_string());
         cols.push(if self.id { format!("rs{}", self.pos) } else { ".".into() });
-        cols.push("A".into());
+        cols.push(self.reference());
         let alts = self.alts();
         cols.push(if alts.is_empty() { ".".into() } else { alts.join(",") });
         cols.push(self.qual.map(|q| q.to_string()).unwrap_or_else(|| ".".into()));
@@ -270,6 +282,8 @@ pub fn gt_strategy(odd_ploidy: bool, missing_weight: u32, multi_weight: u32) -> 
         2 => (0u8..=3, 2u8..=3, any::<bool>(), any::<bool>()).prop_map(|(a, b, swap, p)| if swap { Gt::diploid(Some(b), Some(a), p) } else { Gt::diploid(Some(a), Some(b), p) }),
         1 => (2u8..=3, any::<bool>()).prop_map(|(a, p)| Gt::diploid(Some(a), Some(a), p)),
         1 => (2u8..=3, any::<bool>(), any::<bool>()).prop_map(|(a, swap, p)| if swap { Gt::diploid(None, Some(a), p) } else { Gt::diploid(Some(a), None, p) }),
+        // two-digit allele indices (clamped to the record's ALT count afterwards)
+        2 => (0u8..=11, 4u8..=11, any::<bool>(), any::<bool>()).prop_map(|(a, b, swap, p)| if swap { Gt::diploid(Some(b), Some(a), p) } else { Gt::diploid(Some(a), Some(b), p) }),
     ];
     let odd = prop_oneof![
         2 => (0u8..=1).prop_map(|a| Gt { alleles: vec![Some(a as u64)], phased: vec![] }),
@@ -315,13 +329,13 @@ impl Default for GenParams {
 
 fn record_strategy(p: &GenParams) -> impl Strategy<Value = Record> {
     (
-        (any::<u16>(), 1u64..=5000, prop_oneof![1 => Just(0u8), 6 => Just(1u8), 2 => Just(2u8), 1 => Just(3u8)], prop::bool::weighted(0.1), any::<bool>()),
+        (any::<u16>(), 1u64..=5000, prop_oneof![4 => Just(0u8), 24 => Just(1u8), 8 => Just(2u8), 4 => Just(3u8), 3 => 4u8..=11], prop::bool::weighted(0.1), any::<bool>(), prop_oneof![40 => Just(0u16), 4 => 1u16..=8, 1 => 100u16..=9000]),
         (prop::option::weighted(0.5, 0u16..=999), 0u8..=2, 0u8..=7, any::<bool>(), prop::bool::weighted(0.3), any::<u8>(), any::<u8>()),
         prop::collection::vec(gt_strategy(p.odd_ploidy, p.missing_weight, p.multi_weight), p.max_samples),
     )
         .prop_map({
             let no_gt = p.no_gt_per_256;
-            move |((contig, pos_step, n_alt, symbolic, id), (qual, filter, info, fmt_dp, fmt_gq, gt_draw, force), gts)| Record {
+            move |((contig, pos_step, n_alt, symbolic, id, ref_pad), (qual, filter, info, fmt_dp, fmt_gq, gt_draw, force), gts)| Record {
                 contig: contig as usize,
                 pos: pos_step,
                 n_alt,
@@ -332,6 +346,7 @@ fn record_strategy(p: &GenParams) -> impl Strategy<Value = Record> {
                 info,
                 fmt_dp,
                 fmt_gq,
+                ref_pad,
                 has_gt: gt_draw >= no_gt,
                 force,
                 gts,
